@@ -133,6 +133,12 @@ pub(crate) struct Env {
     /// Used for 'evaluate up to cursor'.
     pub(crate) stop_at_expr_id: Option<SyntaxId>,
 
+    /// Is `stop_at_expr_id` only marking the last toplevel expression
+    /// of an ordinary evaluation request, rather than the target of
+    /// 'evaluate up to cursor'? Ordinary evaluation must run `for`
+    /// loops to completion.
+    pub(crate) stop_at_last_toplevel_expr: bool,
+
     /// Refuse to run code might modify the system, such as filesystem
     /// access or shell commands. This should allow us to run
     /// arbitrary code safely.
@@ -207,6 +213,7 @@ impl Env {
             stack_limit: None,
             enforce_sandbox: false,
             stop_at_expr_id: None,
+            stop_at_last_toplevel_expr: false,
             id_gen,
             vfs,
             initial_state: None,
